@@ -18,7 +18,7 @@ TECHNIQUE = 'property-based testing: generated directory trees materialised on d
 LEVEL_TEXT = 'exploration: generated directory specs (sort-sensitive names, empty folders, zero-byte files, equal names in several folders, generated mtimes)'
 RULE = (
     "case = (directory spec: nesting <= 4, empty folders, names from a pool with upper/lower case, digits, dots, "
-    "dashes, spaces, non-ASCII letters (also not NFC-normalised), the same name in several folders, file sizes 0..5000, generated mtimes; "
+    "dashes, spaces, non-ASCII letters (also not NFC-normalised, and one name whose bytes are not valid UTF-8), hard links (a second name for an existing file), the same name in several folders, file sizes 0..5000, generated mtimes; "
     "sort on/off), materialised in a per-case temporary directory. Oracle: spec and tree are walked together (name "
     "sets, is_dir, size == os.stat().st_size, mdate == os.stat().st_mtime, with sort: files by code-point name then "
     "directories by name); then save -> FileSystemTree.load must preserve class, names, flags, sizes, mdates and "
@@ -38,7 +38,9 @@ NAMES = ["a.txt", "B.txt", "b.txt", "Z", "_x", "10", "9", "ä.txt", "Ärger", "f
          "lib", "lib64", "v1", "v10", "notes", "notes (copy)", "it's.txt", "src", "src-old", "a]b", "a'b",
          # legal names that are not in Unicode normal form C (decomposed accent, Ohm / Angstrom sign): the tree
          # carries the name as it is on disk
-         "e\u0301.txt", "\u2126", "\u212b.dat", "cafe\u0301"]
+         "e\u0301.txt", "\u2126", "\u212b.dat", "cafe\u0301",
+         # a name whose bytes on disk are not valid UTF-8 (b"caf\xe9.txt": os.fsdecode gives a lone surrogate)
+         "caf\udce9.txt"]
 
 
 def materialise(spec, path):
@@ -62,6 +64,32 @@ def stat_map(root):
             st_ = os.stat(full)
             out[full] = (st_.st_size, st_.st_mtime)
     return out
+
+
+def add_hard_links(spec, root, picks):
+    """Hard links: a second name (in any folder) for a file that is already there - two directory entries, one inode.
+    picks: list of (source index, target folder index, new name).  The spec gets the additional entries."""
+    files, folders = [], []
+
+    def collect(sp, path):
+        folders.append((sp, path))
+        for f in sp["files"]:
+            files.append((f, os.path.join(path, f[0])))
+        for d in sp["dirs"]:
+            collect(d, os.path.join(path, d["name"]))
+
+    collect(spec, root)
+    made = 0
+    for si, fi, name in picks:
+        if not files:
+            break
+        (f, src), (sp, folder) = files[si % len(files)], folders[fi % len(folders)]
+        if any(x[0] == name for x in sp["files"]) or any(d["name"] == name for d in sp["dirs"]):
+            continue
+        os.link(src, os.path.join(folder, name))
+        sp["files"].append([name, f[1], f[2]])
+        made += 1
+    return made
 
 
 def compare(rec, spec, path, children, sort, which, stats=None):
@@ -131,6 +159,9 @@ def run(case, rec):
         root = os.path.join(tmp, "root")
         os.mkdir(root)
         materialise(spec, root)
+        if case.get("links") and not case.get("rescan"):
+            if add_hard_links(spec, root, case["links"]):
+                rec.cls("hard-links")
         tree = load_tree_from_fs(root, sort=sort) if case.get("sort_kw", True) else load_tree_from_fs(root)
         if not case.get("sort_kw", True):
             sort = True  # documented default
@@ -202,8 +233,16 @@ def run(case, rec):
         # ---- save / load ------------------------------------------------------------
         target = os.path.join(tmp, "tree.nutree")
         comp = case.get("compression", False)
-        tree.save(target, compression=comp)
-        loaded = FileSystemTree.load(target)
+        if case.get("save_stream_ascii"):
+            # a stream of the caller's choosing that can only encode ASCII
+            with open(target, "w", encoding="ascii") as fp:
+                tree.save(fp)
+            with open(target, "r", encoding="ascii") as fp:
+                loaded = FileSystemTree.load(fp)
+            rec.cls("save-to-ascii-stream")
+        else:
+            tree.save(target, compression=comp)
+            loaded = FileSystemTree.load(target)
         rec.evals += 1
         if type(loaded) is not FileSystemTree:
             rec.fail("load:class", repr(type(loaded)))
@@ -237,6 +276,10 @@ def hyp_cases(draw, tier):
         case["sort_kw"] = False
     if draw(st.sampled_from([0, 0, 1])):
         case["compression"] = True
+    if draw(st.sampled_from([0, 0, 1])):
+        case["save_stream_ascii"] = True
+    if draw(st.sampled_from([0, 0, 1])):
+        case["links"] = draw(st.lists(st.tuples(st.integers(0, 20), st.integers(0, 10), st.sampled_from(["link1", "Zlink", "a.lnk"])).map(list), min_size=1, max_size=3))
     if draw(st.sampled_from([0, 1])):
         case["rescan"] = True
         if draw(st.sampled_from([0, 1])):
